@@ -52,23 +52,20 @@ func (a *ConstFuncParamAnnotator) VisitFuncDecl(decl *ast.FuncDecl) ast.VisitRes
 	a.currentDecl = nil
 
 	if ast.IsGeneric(decl) {
+		// the bodies of the instantiations are not part of the tree that is being visited,
+		// so we have to assume that their parameters are not const
 		for _, instantiations := range decl.Generic.Instantiations {
 			for _, instantiation := range instantiations {
-				a.VisitFuncDecl(instantiation)
+				a.assumeNotConst(instantiation)
 			}
 		}
 		return ast.VisitRecurse
 	}
 
 	// if the function is extern, we have to assume that the parameters are not const
-	if ast.IsExternFunc(decl) {
-		attachement := ConstFuncParamMeta{
-			IsConst: make(map[string]bool, len(decl.Parameters)),
-		}
-		for _, param := range decl.Parameters {
-			attachement.IsConst[param.Name.Literal] = false
-		}
-		a.CurrentModule.Ast.AddAttachement(decl, attachement)
+	// the same goes for forward declarations, whose body comes later and is not visited as part of this declaration
+	if ast.IsExternFunc(decl) || ast.IsForwardDecl(decl) {
+		a.assumeNotConst(decl)
 		return ast.VisitSkipChildren
 	}
 
@@ -78,12 +75,8 @@ func (a *ConstFuncParamAnnotator) VisitFuncDecl(decl *ast.FuncDecl) ast.VisitRes
 	}
 	// track all the function parameters
 	// and initially assume they are const
-	body := decl.Body
-	if ast.IsForwardDecl(decl) {
-		body = decl.Def.Body
-	}
 	for _, funcParam := range decl.Parameters {
-		param, exists, isVar := body.Symbols.LookupDecl(funcParam.Name.Literal)
+		param, exists, isVar := decl.Body.Symbols.LookupDecl(funcParam.Name.Literal)
 		if exists && isVar {
 			a.currentParams[param.(*ast.VarDecl)] = true
 			attachement.IsConst[funcParam.Name.Literal] = true
@@ -93,6 +86,17 @@ func (a *ConstFuncParamAnnotator) VisitFuncDecl(decl *ast.FuncDecl) ast.VisitRes
 	a.currentDecl = decl
 
 	return ast.VisitRecurse
+}
+
+// marks all parameters of decl as not const
+func (a *ConstFuncParamAnnotator) assumeNotConst(decl *ast.FuncDecl) {
+	attachement := ConstFuncParamMeta{
+		IsConst: make(map[string]bool, len(decl.Parameters)),
+	}
+	for _, param := range decl.Parameters {
+		attachement.IsConst[param.Name.Literal] = false
+	}
+	a.CurrentModule.Ast.AddAttachement(decl, attachement)
 }
 
 func (a *ConstFuncParamAnnotator) VisitFuncCall(call *ast.FuncCall) ast.VisitResult {
